@@ -138,10 +138,13 @@ TSkipUnreadable ==
 TCfgFail ==          \* the configuration cannot be read: main() gives up before anything else
   /\ good /\ p.pc = "readlock" /\ Has /\ Ev.ev = "op" /\ Ev.cls = "cfg" /\ ~Ev.ok /\ Ev.injected
   /\ p' = [p EXCEPT !.pc = "exit2"] /\ Adv /\ Keep /\ Say(<<{23}>>) /\ UNCHANGED <<fsvars, g>>
-TReadLockFail ==     \* the lock cannot be stat'ed / opened / read (also: it does not exist): no cached ID
+TReadLockFail ==     \* the lock does not exist (silent: no cached ID), or it cannot be examined / opened / read (the run gives up)
   /\ good /\ p.pc = "readlock" /\ Has /\ Ev.ev = "op" /\ Ev.cls = "lock" /\ Ev.op \in {"stat", "open", "read"} /\ ~Ev.ok
-  /\ p' = [p EXCEPT !.pc = "handlers", !.cached = NoRef] /\ Adv /\ Keep /\ UNCHANGED <<fsvars, g>>
-  /\ Say(IF Ev.op \in {"open", "read"} /\ Ev.injected THEN <<{32}>> ELSE <<>>)    \* "not found" is silent
+  /\ Adv /\ Keep /\ UNCHANGED fsvars
+  /\ IF Ev.err = 2 /\ ~Ev.injected
+       THEN p' = [p EXCEPT !.pc = "handlers", !.cached = NoRef] /\ g' = g /\ Say(<<>>)
+       ELSE p' = [p EXCEPT !.pc = "exit2"] /\ g' = [g EXCEPT !.faults = @ + 1]
+            /\ Say(IF Ev.op = "stat" THEN <<{24}>> ELSE <<{32}, {24}>>)
 TDiscoverFail ==     \* the source directory cannot be examined: "Code discovery error" / "No files found"
   /\ good /\ p.pc = "discover" /\ Has /\ Ev.ev = "op" /\ Ev.cls = "other" /\ ~Ev.ok /\ Ev.injected
   /\ FinishInterrupted(XNonZero) /\ Adv /\ Keep /\ Say(IF Ev.raw = "stat" THEN <<{1, 2}, FailCode>> ELSE <<FailCode>>) /\ UNCHANGED fsvars
